@@ -5,7 +5,7 @@ MUST_ENTER = [('a5/core/serialization.py', 'serialize'), ('a5/core/serialization
               ('a5/core/serialization.py', 'get_resolution')]
 RULE = ('cells (face, segment, S, r): complete enumeration of all ids r<=6 (quick) / 8 (thorough) through cell_to_children(0, r); '
         'structured encode/decode for every (face, segment, r in 0..30) with S in {0,1,max,max-1,single bits, top-two bits, '
-        'marker-adjacent bits, random}; over-range S must raise; ambient post-conditions on every serialize/deserialize executed '
+        'marker-adjacent bits, random}; over-range S must raise; the same cell described by dicts of different provenance (fresh, plain dict, decoded neighbour edited with update / |= / item assignment, copies); 6 concurrent threads encoding / decoding different cells; ambient post-conditions on every serialize/deserialize executed '
         'inside lonlat_to_cell / cell_to_children / cell_to_parent / compact. The bit layout is not pinned: only range, '
         'resolution, bijection and counts are demanded. distinct = distinct (face, segment, S, r) or id; non-trivial = r>=2 '
         '(position bits present) or enumerated id')
@@ -28,6 +28,7 @@ def plan(tier, seed):
     nrand = 12 if tier == 'quick' else 150
     for f in range(12):
         specs.append({'part': 'structured', 'face': f, 'nrand': nrand})
+    specs.append({'part': 'threads', 'seconds': 4 if tier == 'quick' else 30})
     for i in range(3 if tier == 'quick' else 12):
         specs.append({'part': 'ambient', 'n': 1500 if tier == 'quick' else 8000})
     return specs
@@ -120,6 +121,53 @@ def run_shard(spec, ctx):
                     cells_seen[k] = i
             ctx.count('enumerated_r%02d' % r, len(ids))
         ctx.sample({'id': ids[len(ids) // 2], 'r': r, 'decoded': list(key_of(ser.deserialize(ids[len(ids) // 2])))})
+    elif part == 'threads':
+        # concurrent callers encoding / decoding DIFFERENT cells (1 us switch interval): every result must equal the single-threaded one
+        import sys
+        import threading
+        import time
+        cells = []
+        for _ in range(400):
+            rr = ctx.rnd.randint(0, 29)
+            c = gen.random_cell(ctx.rnd, a5, rr)
+            d = ser.deserialize(c)
+            cells.append((c, rr, key_of(d)))
+        old = sys.getswitchinterval()
+        sys.setswitchinterval(1e-6)
+        stop = time.time() + spec['seconds']
+        bad = []
+        done = [0] * 6
+
+        def worker(t):
+            import random
+            rnd = random.Random('%s/%s' % (spec['seed'], t))
+            while time.time() < stop:
+                c, rr, k = cells[rnd.randrange(len(cells))]
+                try:
+                    g = ser.get_resolution(c)
+                    d = ser.deserialize(c)
+                    back = ser.serialize(d)
+                    if g != rr or key_of(d) != k or back != c:
+                        if len(bad) < 10:
+                            bad.append((c, g, key_of(d), back))
+                except Exception as e:
+                    if len(bad) < 10:
+                        bad.append((c, repr(e)))
+                done[t] += 1
+        ts = [threading.Thread(target=worker, args=(t,), daemon=True) for t in range(6)]
+        for t in ts:
+            t.start()
+        for t in ts:
+            t.join(timeout=spec['seconds'] * 10 + 60)
+        sys.setswitchinterval(old)
+        ctx.case(('threads', spec['shard']), n=sum(done))
+        ctx.count('concurrent_codec_calls', sum(done))
+        for b in bad:
+            ctx.fail('wrong_under_concurrent_callers', {'id': b[0], 'threads': 6}, got=repr(b[1:]))
+        for c, rr, k in cells[:50]:
+            if ser.get_resolution(c) != rr or key_of(ser.deserialize(c)) != k:
+                ctx.fail('wrong_after_concurrent_callers', {'id': c, 'r': rr})
+        ctx.sample({'threads': 6, 'calls': sum(done)})
     elif part == 'ladder':
         rc, b = spec['rc'], spec['b']
         parents = [a5.cell_to_children(0, 0)[f0] for f0 in spec['faces']] if spec.get('faces') else [0 if rc == -1 else gen.random_cell(ctx.rnd, a5, rc)]
@@ -156,6 +204,30 @@ def run_shard(spec, ctx):
                     except Exception as e:
                         ctx.fail('serialize_raises', case, exc=repr(e))
                         continue
+                    if r <= 29 and ctx.rnd.random() < 0.25:
+                        # the same cell described by objects of another provenance: a plain dict, a decoded neighbour that was
+                        # edited (update / |= / item assignment / copy) - the id must not depend on how the description was built
+                        try:
+                            other = ser.deserialize(ser.serialize(A5Cell(origin=origins[(f + 1) % 12], segment=(seg + 2) % 5,
+                                                                        S=(S // 2) if r >= 2 else 0, resolution=r)))
+                            variants = [dict(origin=o, segment=seg, S=S, resolution=r)]
+                            v1 = other
+                            v1.update(origin=o, segment=seg, S=S)
+                            variants.append(v1)
+                            v2 = ser.deserialize(i ^ (1 << 58) if r == 0 else i)
+                            v2 |= {'origin': o, 'segment': seg, 'S': S, 'resolution': r}
+                            variants.append(v2)
+                            v3 = dict(ser.deserialize(i))
+                            variants.append(v3)
+                            v4 = ser.deserialize(i)
+                            v4['S'] = S
+                            variants.append(v4)
+                            for vi, vv in enumerate(variants):
+                                if ser.serialize(vv) != i:
+                                    ctx.fail('id_depends_on_cell_object_provenance', case, variant=vi, got=ser.serialize(vv), want=i)
+                            ctx.count('provenance_variants', len(variants))
+                        except Exception as e:
+                            ctx.fail('provenance_raises', case, exc=repr(e))
                     cell = check_id(i, r, ctx, ser, table, case)
                     if cell is None:
                         continue
